@@ -9,6 +9,8 @@ CONSTANTS
     Ks = {3}
     MaxIters = {1}
     LCM = 60
+    ShowSwap = FALSE
+    RowSum = 0
     ShowEmpty = TRUE
     Replay = FALSE
 SPECIFICATION Spec
